@@ -670,7 +670,16 @@ function serComposed(n) {
   })
   return o
 }
-const S = (root) => enc({ shadow: ser(root.getShadowRoot()), composed: serComposed(root) })
+function serBackend(n) {
+  if (n.nodeType === n.TEXT_NODE) return n.textContent
+  return [n.tagName].concat(n.childNodes.map(serBackend))
+}
+const S = (root) => {
+  const o = { shadow: ser(root.getShadowRoot()), composed: serComposed(root) }
+  const be = root.getBackendElement && root.getBackendElement()
+  if (be && Array.isArray(be.childNodes) && typeof be.tagName === 'string') o.backend = serBackend(be)
+  return enc(o)
+}
 const locusOf = (liveRoot, freshRoot) => {
   const a = ser(liveRoot.getShadowRoot())
   const b = ser(freshRoot.getShadowRoot())
@@ -686,7 +695,12 @@ const locusOf = (liveRoot, freshRoot) => {
       }
       return here
     }
-    return ['composed', ...walk(serComposed(liveRoot), serComposed(freshRoot), [])]
+    const ca = serComposed(liveRoot)
+    const cb = serComposed(freshRoot)
+    // the runtime's own composed trees agree as well: what differs is the child order the backend
+    // was given (only the recording backend shows that)
+    if (enc(ca) === enc(cb)) return ['backend', '@children']
+    return ['composed', ...walk(ca, cb, [])]
   }
   return firstDiffLocus(a, b)
 }
@@ -694,7 +708,19 @@ const locusOf = (liveRoot, freshRoot) => {
 // ---------------------------------------------------------------- building instances
 const TYPE = { String, Number, Boolean, Array, Object, Function }
 const backends = {}
+// the repository's strict in-memory composed backend (tests/base/composed_backend.ts): it keeps the
+// backend's own child lists, so the ORDER in which the runtime inserted nodes is observable
+let RecordedBackend = null
+try {
+  RecordedBackend = await import(SRC.replace(/src$/, 'tests/base/composed_backend.ts'))
+} catch (e) {
+  RecordedBackend = null
+}
 function backendOf(kind) {
+  if (kind === 'recorded') {
+    if (RecordedBackend) return new RecordedBackend.Context()
+    kind = 'composed'
+  }
   if (!backends[kind]) backends[kind] = kind === 'shadow' ? new ge.EmptyBackendContext() : new ge.EmptyComposedBackendContext()
   return backends[kind]
 }
@@ -1156,12 +1182,16 @@ function runWorld(job) {
       // attribution: by the update kinds that ran in this flush
       const hasFast = [...kinds].some((k) => k.startsWith('fast'))
       const hasTree = [...kinds].some((k) => k.startsWith('tree'))
-      res.locus = locusOf(root, fr.root)
+      // (judged on the two serialisations that were compared: each was made under its own context)
+      const pl = JSON.parse(liveS)
+      const pf = JSON.parse(fr.s)
+      res.locus = enc(pl.shadow) === enc(pf.shadow) && enc(pl.composed) === enc(pf.composed) ? ['backend', '@children'] : locusOf(root, fr.root)
       // a model listener that holds another path than a fresh creation registers is C11's matter
       // (its history-dependent clause) unless only fast-path updaters ran
       const onlyModelPath = res.locus.length && res.locus[res.locus.length - 1] === '@model'
       const prop = hasFast && !hasTree ? 'C07' : onlyModelPath ? 'C11' : 'C06'
-      violation(prop, hasFast && !hasTree ? 'fast_path_stale' : onlyModelPath ? 'live_listener_path_stale' : hasFast ? 'mixed_path_stale' : 'tree_path_stale', `${label}: first difference at ${res.locus.join(' > ')}; live tree differs from a fresh creation with the same data (update kinds: ${[...kinds].join(',')})\n${classifyMismatch(liveS, fr.s)}\n data: ${enc(curD()).slice(0, 600)}`)
+      const backendOnly = res.locus[0] === 'backend'
+      violation(prop, backendOnly ? 'backend_child_order_differs' : hasFast && !hasTree ? 'fast_path_stale' : onlyModelPath ? 'live_listener_path_stale' : hasFast ? 'mixed_path_stale' : 'tree_path_stale', `${label}: first difference at ${res.locus.join(' > ')}; live tree differs from a fresh creation with the same data (update kinds: ${[...kinds].join(',')})\n${classifyMismatch(liveS, fr.s)}\n data: ${enc(curD()).slice(0, 600)}`)
       ended = 'mismatch'
       return
     }
